@@ -628,7 +628,8 @@ class Gen:
             if use_var:
                 stmts.append(["let", v, init])
             stmts.append(["switch", d, clauses])
-            stmts.append(["return", ["local", v] if use_var else self.gen(ty, 1)])
+            # what follows a switch (after break / conditional break / fall out of the last clause) reads properties too
+            stmts.append(["return", self.tail_value(ty, v) if use_var else self.gen(ty, 1)])
             return {"kind": "block", "stmts": stmts}
         if k == "const":
             lit = self.lit(ty) if ty != "strlist" else None
@@ -647,8 +648,18 @@ class Gen:
                  ["if", self.gen("bool", depth), [["assign", v, self.gen(ty, 1)]], ([["assign", v, self.gen(ty, 1)]] if r.chance(0.5) else None)]]
         if r.chance(0.3):
             stmts.append(["if", self.gen("bool", 1), [["return", self.gen(ty, 1)]], None])
-        stmts.append(["return", ["local", v]] if r.chance(0.7) else ["expr", ["local", v]])
+        stmts.append(["return", self.tail_value(ty, v)] if r.chance(0.7) else ["expr", ["local", v]])
         return {"kind": "block", "stmts": stmts}
+
+    def tail_value(self, ty, v):
+        """the value returned after a control construct: the local, or the local combined with one more property read
+        (a dependency that only exists in the code *after* the construct)"""
+        comb = {"int": lambda a, b: ["bin", "int", "+", a, b], "string": lambda a, b: ["bin", "string", "+", a, b],
+                "bool": lambda a, b: ["bin", "bool", "^", a, b], "double": lambda a, b: ["bin", "double", "+", a, b],
+                "uint": lambda a, b: ["bin", "uint", "+", a, b]}.get(ty)
+        if comb and self.r.chance(0.6):
+            return comb(["local", v], self.guarded(ty, 1))
+        return ["local", v]
 
     def clause_body(self, ty, v, use_var, r):
         if use_var:
@@ -894,6 +905,16 @@ class Gen:
             self.objs.append(o)
             if oid:
                 self.named.append((oid, cls))
+        if r.chance(0.25):
+            # an explicit id that is exactly the name qmluic generates for anonymous objects of that class, followed by
+            # anonymous objects of the class: the generated names must steer around it, for every later object
+            cls = r.choice(["SimWidget", "SimPanel"])
+            base = cls[0].lower() + cls[1:]
+            oid = base + r.choice(["", "1", "1"])
+            self.objs.append({"cls": cls, "id": oid, "consts": [], "bindings": [], "handlers": []})
+            self.named.append((oid, cls))
+            for _ in range(r.randint(2, 3)):
+                self.objs.append({"cls": cls, "id": None, "consts": [], "bindings": [], "handlers": []})
         if root_cls == "SimPanel":
             self.named.append(("root", "SimPanel"))
         # objects of real Qt classes (read from the working tree's metatypes): real overload sets, isXxx() getters, clones
@@ -1089,22 +1110,32 @@ def doc_observers(rng, type_name="Doc"):
 
 
 def doc_names(rng, type_name="Doc"):
-    """identifier pairs whose capitalised concatenations coincide or look like numbered names"""
-    ids = rng.choice([["foo", "fooBar", "fooBarBaz"], ["foo", "fooBar"], ["w", "wOut", "wOut1"], ["foo", "fooBarBaz1", "fooBar"]])
-    objs = [_obj(i) for i in ids]
-    src = ["prop", ["obj", ids[0]], "intVal"]
-    k = 0
-    for o in objs:
-        props = {"foo": ["barBaz", "barBaz1", "baz"], "fooBar": ["baz", "barBaz"], "fooBarBaz": ["out1", "baz"], "fooBarBaz1": ["out1"],
-                 "w": ["out1", "out2"], "wOut": ["out1", "out2"], "wOut1": ["out1"]}[o["id"]]
-        for p in props:
-            if rng.chance(0.8):
-                k += 1
-                o["bindings"].append(_b(p, ["bin", "int", "+", src, ["lit", "int", k]]))
-        if rng.chance(0.5):
-            o["handlers"].append({"signal": "fired", "sigkey": "fired()", "on": "onFired", "params": [], "form": "expr", "argtypes": [],
-                                  "body": {"kind": "expr_stmt", "stmt": ["call", ["obj", ids[0]], "bump", [["lit", "int", k + 1]]]}})
-    return _mk_doc(type_name, "QWidget", objs)
+    """identifier pairs whose capitalised concatenations coincide (foo.barBaz / fooBar.baz -> FooBarBaz, FooBarBaz1) together
+    with a third binding whose own bare prefix IS that numbered name (foo.barBaz1 or fooBar.baz1 -> FooBarBaz1); in every
+    document order, since which name is handed out first depends on it"""
+    ids = ["foo", "fooBar"] + (["fooBarBaz"] if rng.chance(0.4) else [])
+    if rng.chance(0.5):
+        rng.shuffle(ids)
+    objs = {i: _obj(i) for i in ids}
+    src = ["prop", ["obj", "foo"], "intVal"]
+    k = [0]
+
+    def bind(i, p):
+        if i in objs and not any(b["target"] == p for b in objs[i]["bindings"]):
+            k[0] += 1
+            objs[i]["bindings"].append(_b(p, ["bin", "int", "+", src, ["lit", "int", k[0]]]))
+    bind("foo", "barBaz")
+    bind("fooBar", "baz")
+    third = rng.choice([("fooBar", "baz1"), ("foo", "barBaz1"), ("fooBar", "baz1")])
+    bind(*third)
+    for i, p in (("foo", "baz"), ("foo", "barBaz1"), ("fooBar", "barBaz"), ("fooBar", "baz1"), ("fooBarBaz", "out1"), ("fooBarBaz", "z"), ("fooBarBaz", "z1"), ("foo", "z1")):
+        if rng.chance(0.3):
+            bind(i, p)
+    for i in ids:
+        if rng.chance(0.4):
+            objs[i]["handlers"].append({"signal": "fired", "sigkey": "fired()", "on": "onFired", "params": [], "form": "expr", "argtypes": [],
+                                        "body": {"kind": "expr_stmt", "stmt": ["call", ["obj", "foo"], "bump", [["lit", "int", k[0] + 1]]]}})
+    return _mk_doc(type_name, "QWidget", [objs[i] for i in ids])
 
 
 LITERAL_CLASSES = {
